@@ -274,6 +274,10 @@ impl LogInnerManager {
             &start_index,
             &count
         );
+        if count == 0 {
+            // the target is the index entry itself
+            return Ok((data_cursor, msg_count));
+        }
         loop {
             let read_len = file.read(&mut buffer).await?;
             if read_len == 0 {
